@@ -585,3 +585,181 @@ class _:
 
     def ensures_bits(p, q, prec, rnd, result):
         return result[3] <= prec or result == fzero
+
+
+# ------------------------------------------------------------------ integer parts, conversion to int
+@contract(M + 'round_int')
+class _:
+    shapes = dict(x='int', n='int')
+    result = 'int'
+    default_props = ['C06']
+    all_props = ['C06']
+
+    def requires(x, n, rnd):
+        return n >= 1
+
+    def ensures_value(x, n, rnd, result):
+        return (x >= 0 and result >= 0 and rounded_ok(result, x, n, rnd, 0)) or \
+               (x < 0 and result <= 0 and rounded_ok(-result, -x, n, rnd, 1))
+
+
+
+@contract(M + 'to_int')
+class _:
+    shapes = dict(s='mpf')
+    enums = dict(rnd=(None, 'n', 'f', 'c', 'u', 'd'))
+    result = 'int'
+    default_props = ['C06']
+    all_props = ['C06']
+    raises = dict(ValueError=lambda s: is_nonfinite(s))
+
+    def requires(s, rnd):
+        return WF(s)
+
+    def ensures_value(s, rnd, result):
+        return ToIntSpec(result, s, rnd)
+
+
+@contract(M + 'to_man_exp')
+class _:
+    shapes = dict(s='mpf')
+    result = ('tuple', 'int', 'int')
+    default_props = ['C39']
+    all_props = ['C39']
+    raises = dict(ValueError=lambda s: is_nonfinite(s))
+
+    def requires(s):
+        return WF(s)
+
+    def ensures_value(s, result):
+        return result == (s[1], s[2])
+
+
+@contract(M + 'mpf_round_int')
+class _:
+    shapes = dict(s='mpf')
+    enums = dict(rnd=('n', 'f', 'c'))
+    result = 'mpf'
+    props = dict(wf=['C01', 'C06'], value=['C06'])
+    all_props = ['C06', 'C01']
+
+    def requires(s, rnd):
+        return WF(s)
+
+    def ensures_wf(s, rnd, result):
+        return WF(result)
+
+    def ensures_value(s, rnd, result):
+        return RoundIntSpec(result, s, rnd)
+
+    ghost = {('mag = exp + bc', 0, 'after'): ['lemma_pow2_add(bc, -exp - bc)', 'lemma_pow2_add(bc - 1, -exp - bc + 1)',
+                                               'lemma_pow2_succ(-exp - 1)']}
+
+
+def _round_int_contract(mode):
+    class K:
+        shapes = dict(s='mpf', prec='int')
+        result = 'mpf'
+        props = dict(wf=['C01', 'C06'], bits=['C10'], value=['C06'])
+        all_props = ['C06', 'C01', 'C10']
+
+        def requires(s, prec, rnd):
+            return WF(s) and prec >= 0
+
+        def ensures_wf(s, prec, rnd, result):
+            return WF(result)
+
+        def ensures_bits(s, prec, rnd, result):
+            return prec == 0 or special(result) or result[3] <= prec
+    return K
+
+
+@contract(M + 'mpf_floor')
+class _(_round_int_contract('f')):
+    def ensures_value(s, prec, rnd, result):
+        return prec != 0 or RoundIntSpec(result, s, 'f')
+
+
+@contract(M + 'mpf_ceil')
+class _(_round_int_contract('c')):
+    def ensures_value(s, prec, rnd, result):
+        return prec != 0 or RoundIntSpec(result, s, 'c')
+
+
+@contract(M + 'mpf_nint')
+class _(_round_int_contract('n')):
+    def ensures_value(s, prec, rnd, result):
+        return prec != 0 or RoundIntSpec(result, s, 'n')
+
+
+@contract(M + 'mpf_frac')
+class _:
+    shapes = dict(s='mpf', prec='int')
+    result = 'mpf'
+    props = dict(wf=['C01', 'C06'], bits=['C10'])
+    all_props = ['C06', 'C01', 'C10']
+
+    def requires(s, prec, rnd):
+        return WF(s) and prec >= 0
+
+    def ensures_wf(s, prec, rnd, result):
+        return WF(result)
+
+    def ensures_bits(s, prec, rnd, result):
+        return prec == 0 or special(result) or result[3] <= prec
+
+
+@contract(M + 'to_rational')
+class _:
+    shapes = dict(s='mpf')
+    result = ('tuple', 'int', 'int')
+    default_props = ['C06']
+    all_props = ['C06']
+    raises = dict(ValueError=lambda s: s == fnan)
+
+    def requires(s):
+        return WF(s) and s != finf and s != fninf
+
+    def ensures_value(s, result):
+        return (s[2] >= 0 and result == ((1 - 2 * s[0]) * s[1] * pow2(s[2]), 1)) or \
+               (s[2] < 0 and result == ((1 - 2 * s[0]) * s[1], pow2(-s[2])))
+
+
+@contract(M + 'mpf_frexp')
+class _:
+    shapes = dict(x='mpf')
+    result = ('tuple', 'mpf', 'int')
+    default_props = ['C39']
+    all_props = ['C39']
+    raises = dict(ValueError=lambda x: is_nonfinite(x))
+
+    def requires(x):
+        return WF(x)
+
+    def ensures_value(x, result):
+        # x == y * 2**n exactly with |y| in [1/2, 1): y keeps the mantissa, exponent -bc
+        return (x == fzero and result == (fzero, 0)) or \
+               (x[1] != 0 and result == ((x[0], x[1], -x[3], x[3]), x[3] + x[2]))
+
+
+@contract(M + 'mpf_mod')
+class _:
+    shapes = dict(s='mpf', t='mpf', prec='int')
+    result = 'mpf'
+    props = dict(wf=['C01', 'C06'], bits=['C10', 'C06'], value=['C06'])
+    all_props = ['C06', 'C01', 'C10']
+    raises = dict(ZeroDivisionError=lambda s, t: t == fzero and not is_nonfinite(s))
+
+    def requires(s, t, prec, rnd):
+        return WF(s) and WF(t) and prec >= 1
+
+    def ensures_wf(s, t, prec, rnd, result):
+        return WF(result)
+
+    def ensures_bits(s, t, prec, rnd, result):
+        return special(result) or result[3] <= prec
+
+    def ensures_value(s, t, prec, rnd, result):
+        return ModSpec(result, s, t, prec, rnd)
+
+    ghost = {('tsign, tman, texp, tbc = t', 0, 'after'): ['split ssign 0 1', 'split tsign 0 1']}
